@@ -17,6 +17,7 @@ F_PURGE = "C13-purge-loses-live-items"
 F_CRASH = "C13-drop-lost-on-crash"
 F_NEWIDX = "C13-drop-ignored-by-new-index"
 F_WAL = "C13-dropped-rows-replayed-from-wal"
+F_SKIP = "C13-purge-forgets-ids-of-skipped-parts"
 LISTING = {"show-series", "show-series-where", "show-tag-values", "tv-where-eq", "tv-where-eq-y", "tv-where-neq", "tv-where-re",
            "tv-where-nre", "tv-where-host-neq", "tv-keyre-where", "tv-in-where", "tk-where-host", "tk-where-region",
            "ss-where-neq", "ss-where-re", "ss-where-nre", "ss-where-region"}
@@ -385,15 +386,20 @@ def setup():
 def main(ck):
     ck.assumptions += [
         "black box: ts-server (single node) built from the working tree; reads over HTTP /query, writes over /write, flush through "
-        "/debug/ctrl?mod=flush, crash = kill -9 of the process the harness started",
-        "index items become searchable within ~3 s of a write (mergeset flush interval); the harness waits 3.2 s before drops and reads",
-        "compaction / out-of-order merge are enabled and left to the store's own scheduling after the flushes (they cannot be forced "
-        "through the control endpoint); restart is a kill -9 after the flush",
+        "/debug/ctrl?mod=flush, crash = kill -9 of the process the harness started; every run has a port block of its own",
+        "index items become searchable within ~3 s of a write (mergeset flush interval): the harness waits 3.2 s before drops and reads, "
+        "and asks a wrong answer again within 14 s of the history's last write (tag-filter cache refresh of new series)",
+        "level compaction and out-of-order merge are forced by 8 write+flush rounds and observed on disk (bounded wait, else broken); "
+        "full compaction needs 2 minutes without writes and is not reached",
         "regex atoms used by the read matrix (/a|b/, /a/) are ones on which C10's known regex defects have no effect",
+        "tree model: incarnation identities are fresh numbers (the code's name_%04d is fresh for fewer than 65536 re-creations); "
+        "DROP MEASUREMENT / POLICY / DATABASE are atomic (the catalogue's mark/delete phases are not modelled); one index per policy "
+        "(several only in the wiring model); acknowledged writes survive a crash (C01)",
     ]
     ck.cov["trusted_base"] = ["Coq 8.16.1 kernel + vm_compute", "no axioms (Print Assumptions: closed)",
-                              "Go harness cmd/c13 (generator, reference map, canonicaliser), python driver props/C13/run.py (signatures)",
-                              "the HTTP/JSON surface of ts-server"]
+                              "Go harnesses cmd/c13 (generator, reference map, canonicaliser), cmd/c13purge, cmd/c13items (item decoder "
+                              "mirroring isDeleted's byte positions), python driver props/C13/run.py (signatures of the open findings)",
+                              "the HTTP/JSON surface of ts-server; repository hooks verif_export_c13.go (read-only dumps)"]
     ck.coq_audit(["C13", "C10"])
     ok = ck.coq_build(["C13/Proofs.vo", "C13/TreeProofs.vo", "C13/Wiring.vo", "C13/Purge.vo", "C13/Corr.vo", "C13/TreeCorr.vo", "C13/PurgeCorr.vo", "C13/Props.vo", "C13/Refuted.vo"])
     if ok:
@@ -426,6 +432,20 @@ def main(ck):
                         and 0 < purge["count_after_reopen"] - purge["expected_after"] <= len(purge["dropped"]))
             if not hidden_ok and relisted and lost and fragment_finding(ck, F_PURGE):
                 hidden_ok = True
+            sk = purge.get("skipped_part")
+            if sk:
+                ck.cov["purge_with_a_part_in_merge"] = sk
+                if sk["listed_after_drop"] != sk["expected"] or sk.get("purge_error"):
+                    ck.violation({"kind": "direct-oracle", "what": "the dropped series were not hidden before the purge, or the purge failed", "scenario": sk})
+                elif sk["listed_after_purge_and_reopen"] != sk["expected"] or sk["dropped_listed_again"]:
+                    # signature: the extra entries are exactly (some of) the dropped series, all parts carried the in-merge mark
+                    if (fragment_finding(ck, F_SKIP) and sk["parts_marked_in_merge"] > 0
+                            and 0 < sk["listed_after_purge_and_reopen"] - sk["expected"] <= sk["dropped"]):
+                        ck.known_finding(F_SKIP, "after a purge pass that skipped parts being merged, the deleted-series table forgets the dropped ids: "
+                                         "the dropped series are listed again after the next reopen")
+                    else:
+                        ck.violation({"kind": "direct-oracle", "what": "dropped series are listed again after the purge + reopen", "scenario": sk,
+                                      "rerun": "harness/cmd/c13purge (in-process, deterministic)"})
             if purge.get("cross_index_leak"):
                 if ck.match_finding(F_CROSS):
                     ck.known_finding(F_CROSS, what_cross)
@@ -731,7 +751,7 @@ def main(ck):
     ck.cov["distinct_nontrivial"] = len(nontriv)
     ck.cov["traces_validated_against_impl"] = validated
     ck.cov["rule"] = ("history = two write batches (flushed / in memory, out of order, sometimes two shard groups) over 1-3 measurements, "
-                      "one drop, writes after it, flush, kill -9 + restart, with the 32-34 shape read matrix (selects, aggregates, plain and conditioned listings, exact cardinalities) at five points; evaluations = "
+                      "one drop, writes after it, forced compaction, kill -9 + restart, late drops (new index, rows in the WAL) and a kill -9 right after an acknowledged drop, with the 36-38 shape read matrix (selects, aggregates, plain and conditioned listings, exact cardinalities) at up to seven points; evaluations = "
                       "reads compared with the reference; non-trivial = the drop removed some rows and left some; distinct = different "
                       "series/points/drop")
     ck.cov["drop_kind_histogram"] = kinds
